@@ -1,0 +1,16 @@
+//go:build verif
+
+package shell_operator
+
+import (
+	v1 "k8s.io/apiextensions-apiserver/pkg/apis/apiextensions/v1"
+
+	"github.com/flant/shell-operator/pkg/webhook/conversion"
+)
+
+// VerifConversionEventHandler exposes conversionEventHandler (the function that
+// initConversionWebhookManager installs as ConversionWebhookManager.EventHandlerFn)
+// to the verification harness. Add-only; built with -tags verif only.
+func (op *ShellOperator) VerifConversionEventHandler(crdName string, request *v1.ConversionRequest) (*conversion.Response, error) {
+	return op.conversionEventHandler(crdName, request)
+}
